@@ -645,6 +645,13 @@ impl crate::world::Adversary for NonceGuesser {
                 return; // a repetition of the same SYN-ACK
             }
             self.seen.push(f.nonce);
+            // the very nonce, but returned from other addresses than the one it was sent to (a
+            // nonce proves that its sender can receive at the address it was sent to, nothing else)
+            if self.seen.len() <= 3 {
+                for (i, other) in self.raws.iter().filter(|r| **r != dst).enumerate() {
+                    out.push(TimedOp { t_us: now_us + 3_000 + 2_000 * i as u64, rank: DELIVER_RANK_PUB, op: Op::Inject { to: self.server, from: *other, bytes: enc_hs_ack(f.nonce), twin: false } });
+                }
+            }
             // near misses from the pending address itself: the right nonce in all but a few of
             // its high bits (or low bits) is not the nonce
             if self.near < 6 {
@@ -1159,6 +1166,11 @@ pub fn world_b_spoof_long(property: &str, scenario: &str, seed: u64, run: u64, _
         let t0 = r.range(0, 2_000_000);
         let syn = enc_syn(3, 0x2345_6789 + k as u32, 2_000_000, 1000, 1_000_000, 1472);
         plan.push(t0, 0x8000_0002, Op::Inject { to: 0, from: raw, bytes: syn.clone(), twin: false });
+        // the server's send call fails just when it answers the request (the answer is lost; the
+        // retransmissions follow their schedule)
+        if r.chance(0.3) {
+            plan.push(t0 + 1, 0x8000_0003, Op::SockErr { ep: 0, recv: 0, send: r.range(1, 2) as u32 });
+        }
         // the same request again (same nonce): once at any time before the handshake times out,
         // once in its last two seconds, or a dozen times in quick succession
         match r.below(6) {
